@@ -2,8 +2,10 @@
  * seek / write calls it makes on the FILE*.
  *
  *   c19_sparse <outfile> <sparse 0|1> <skips0> <spec>
- *   spec: frames separated by '|', chunks by ',', a chunk = runs z<n> (zero bytes) / x<n> (non-zero bytes) joined by '+'
+ *   spec: frames separated by '|', chunks by ',', a chunk = runs z<n> (zero bytes) / x<n> (non-zero bytes) joined by '+',
+ *         optionally followed by *<k>: the same buffer is handed to the writer k times (zero runs beyond 4 GiB)
  * Each chunk is one AIO_fwriteSparse call on a malloc'ed buffer; each frame ends with AIO_fwriteSparseEnd.
+ * With env C19_SPARSE_QUIET=1 the S/W calls are not printed (only "SIZE").
  * stdout: "S<n>" per seek, "W<n>" per write (n bytes), then "SIZE <file size>".
  */
 #define _FILE_OFFSET_BITS 64
@@ -12,15 +14,18 @@
 #include <string.h>
 #include <sys/types.h>
 
+static int zv_quiet = 0;
 static int zv_fseeko(FILE* f, off_t off, int whence)
 {
-    printf("S%lld ", (long long)off);
-    if (whence != SEEK_CUR) printf("WHENCE%d ", whence);
+    if (!zv_quiet) {
+        printf("S%lld ", (long long)off);
+        if (whence != SEEK_CUR) printf("WHENCE%d ", whence);
+    }
     return fseeko(f, off, whence);
 }
 static size_t zv_fwrite(const void* p, size_t sz, size_t n, FILE* f)
 {
-    printf("W%zu ", sz * n);
+    if (!zv_quiet) printf("W%zu ", sz * n);
     return fwrite(p, sz, n, f);
 }
 #define fseeko zv_fseeko
@@ -32,6 +37,9 @@ static size_t zv_fwrite(const void* p, size_t sz, size_t n, FILE* f)
 #undef fwrite
 
 FIO_display_prefs_t g_display_prefs = { 2, FIO_ps_auto };
+/* EXM_THROW may call this (defined in fileio.c, which is not linked here): nothing to remove in this harness */
+void FIO_removeArtefact(void);
+void FIO_removeArtefact(void) { }
 
 int main(int argc, char** argv)
 {
@@ -42,6 +50,7 @@ int main(int argc, char** argv)
     char* frame_save = NULL;
     char* fr;
     if (argc != 5) { fprintf(stderr, "usage\n"); return 2; }
+    zv_quiet = getenv("C19_SPARSE_QUIET") != NULL;
     memset(&prefs, 0, sizeof(prefs));
     prefs.sparseFileSupport = atoi(argv[2]);
     prefs.testMode = 0;
@@ -55,7 +64,11 @@ int main(int argc, char** argv)
         for (ch = strtok_r(fr, ",", &chunk_save); ch; ch = strtok_r(NULL, ",", &chunk_save)) {
             /* size of the chunk */
             size_t total = 0, pos = 0;
-            char* copy = strdup(ch);
+            unsigned long reps = 1, rep;
+            char* star = strchr(ch, '*');
+            char* copy;
+            if (star) { reps = strtoul(star + 1, NULL, 10); *star = 0; }
+            copy = strdup(ch);
             char* run_save = NULL;
             char* r;
             unsigned char* buf;
@@ -70,7 +83,8 @@ int main(int argc, char** argv)
                 else for (j = 0; j < n; j++) buf[pos + j] = (unsigned char)(1 + (j % 255));
                 pos += n;
             }
-            storedSkips = AIO_fwriteSparse(f, buf, total, &prefs, storedSkips);
+            for (rep = 0; rep < reps; rep++)
+                storedSkips = AIO_fwriteSparse(f, buf, total, &prefs, storedSkips);
             free(buf);
         }
         AIO_fwriteSparseEnd(&prefs, f, storedSkips);
